@@ -201,6 +201,10 @@ class TriangleBoundary(BoundaryDomain):
         x_close_to_0 = self._bary_coords_close_to_0_or_1(bary_x, bary_y)
         y_close_to_0 = self._bary_coords_close_to_0_or_1(bary_y, bary_x)
         sum_close_to_1 = torch.isclose(bary_x + bary_y, torch.tensor(1.0))
+        # only the segment between corner_1 and corner_2, not the whole line
+        sum_close_to_1 = torch.logical_and(
+            sum_close_to_1, torch.logical_and(0 <= bary_x, 0 <= bary_y)
+        )
         close_to_0 = torch.logical_or(x_close_to_0, y_close_to_0)
         return torch.logical_or(close_to_0, sum_close_to_1).reshape(-1, 1)
 
